@@ -44,7 +44,10 @@ Genuine defects this check reports on the unchanged tree (specific mechanisms):
 * ``literal-execute-escaped-name-keyerror`` - literal_execute bind whose name needs
   escaping -> KeyError in ``_process_parameters_for_postcompile``;
 * ``imv-named-bindname-prefix-replace`` - insertmanyvalues under paramstyle "named":
-  ``str.replace(":x", ":x__0")`` also rewrites the head of ``:x2``.
+  ``str.replace(":x", ":x__0")`` also rewrites the head of ``:x2``;
+* ``repeated-tuple-expanding-positional-assert`` - a tuple IN parameter rendered twice in
+  one statement (subquery used in two UNION branches) -> AssertionError under qmark /
+  format / numeric, works under named / pyformat.
 An internal error (AssertionError, KeyError...) under one paramstyle while the reference
 rendering executes is reported as ``execution-failed-under-style``.
 
@@ -344,7 +347,18 @@ def reference_run(rig, case):
     return canon_rows(rows, case.ordered), state
 
 
-SELECT_KINDS = {"probe", "select-plain", "select-group", "select-join", "select-union", "text"}
+SELECT_KINDS = {"probe", "select-plain", "select-group", "select-join", "select-union", "select-shared-subquery", "text"}
+
+
+def known_tuple_assert(ctx, case, e, label, witness, positional):
+    """a tuple-typed expanding parameter that is rendered twice (same subquery in two UNION branches)
+    under a positional paramstyle: ``assert values is not None`` in _process_parameters_for_postcompile"""
+    if isinstance(e.orig, AssertionError) and "tuple_in" in case.features and positional:
+        ctx.count("repeated_tuple_param_assert")
+        ctx.violation("repeated-tuple-expanding-positional-assert",
+                      f"{label}: a tuple IN parameter rendered twice raised AssertionError under a positional paramstyle", dict(witness, error=str(e)[:300]))
+        return True
+    return False
 
 
 def known_keyerror(ctx, case, e, label, witness):
@@ -375,7 +389,7 @@ def run_sqlite(rig, ctx, case, style, shim, eng, known, want_rows, want_state, w
                     ctx.violation(mech("driver-rejected-statement", style, case), f"{label}: {str(e)[:300]}", witness)
                 return
             except sa.exc.StatementError as e:
-                if known_keyerror(ctx, case, e, label, witness):
+                if known_keyerror(ctx, case, e, label, witness) or known_tuple_assert(ctx, case, e, label, witness, eng.dialect.positional):
                     return
                 ctx.violation(mech("execution-failed-under-style:" + type(e.orig).__name__, style, case),
                               f"{label}: the literal_binds reference executed, this paramstyle raised {str(e)[:200]}", witness)
@@ -435,7 +449,7 @@ def run_fake(rig, ctx, case_builder, name, eng, fake, struct_seed, vseed, witnes
         ctx.count("fake_compile_unsupported")
         return
     except sa.exc.StatementError as e:
-        if known_keyerror(ctx, case, e, name, witness):
+        if known_keyerror(ctx, case, e, name, witness) or known_tuple_assert(ctx, case, e, name, witness, d.positional):
             return
         raise
     except AssertionError as e:
